@@ -864,6 +864,13 @@ def wfInputType : TypeDef → Bool
 
 def wfInputTypes (all : List TypeDef) : Bool := all.all wfInputType
 
+/-- every object lists an interface at most once, every union a member at most once (`defineInterfaces` /
+`defineUnionTypes`, commit 9abaf54) -/
+def membersOnce : TypeDef → Bool
+  | .object _ ifaces _ _ _ => decide ifaces.Nodup
+  | .union _ ms _ _ => decide ms.Nodup
+  | _ => true
+
 def isScalarName (all : List TypeDef) (n : String) : Bool :=
   match findType all n with | some (.scalar ..) => true | _ => false
 
